@@ -16,6 +16,9 @@ C10 line-protocol driver.  ops:
   trunc <int> <size> <signed>       truncateIntValue
   minmax <bits> <unsigned>          getMinMaxValues
   const <int> <cchar> <u|s|-> <charbit> <unsigned> <size> <bits|-1>   literal branch of valueFlowSetConstantValue
+  fold <lnot|bnot|neg|plus> <operand value> <operand unsigned> <operand type> <int_bit> <long_bit> <token unsigned> <token size>
+                                    unary folding of setTokenValue + its guard
+  cun <op> <value> <operand bits> <unsigned> <int_bit>   SPEC: promoted type and C value of `op x`
   lit <sign> <base> <upper> <hexdigits> <hexsuffix>   SPEC: well-formedness, spelling and value of a literal
   clit <kind> <elem>*               SPEC: well-formedness, spelling and value of a character literal
   plat <name>                       platform record (generated table)
@@ -75,6 +78,13 @@ def elemsOf : List String → Option (List CElem)
     | some e, some es => some (e :: es)
     | _, _ => none
 
+def unopOf : String → Option UnOp
+  | "lnot" => some .lnot | "bnot" => some .bnot | "neg" => some .neg | "plus" => some .plus | _ => none
+
+def ityOf : String → Option ITy
+  | "bool" => some .bool | "char" => some .char | "short" => some .short | "int" => some .int | "long" => some .long
+  | "longlong" => some .longlong | _ => none
+
 def findPlat (n : String) : Option Platform := Cppcheck.Gen.Platforms.all.find? (·.name == n)
 
 def platStr (p : Platform) : String :=
@@ -132,6 +142,19 @@ def step (line : String) : String :=
       match constValue v (cc == "1") sign cb (u == "1") n (if bits < 0 then none else some bits.toNat) with
       | some r => toString r
       | none => "novalue"
+    | _, _, _, _ => "bad-op"
+  | ["fold", op, v, u, ty, ib, lb, tu, tsz] =>
+    match unopOf op, v.toInt?, ityOf ty, ib.toNat?, lb.toNat?, tsz.toNat? with
+    | some op, some v, some ty, some ib, some lb, some tsz =>
+      match setGuard (foldUnary op v (u == "1") ty ib lb) (tu == "1") tsz with
+      | some r => toString r
+      | none => "novalue"
+    | _, _, _, _, _, _ => "bad-op"
+  | ["cun", op, v, bits, u, ib] =>
+    match unopOf op, v.toInt?, bits.toNat?, ib.toNat? with
+    | some op, some v, some bits, some ib =>
+      let (pb, pu) := promote bits (u == "1") ib
+      s!"{cUnary op v bits (u == "1") ib} pbits={pb} punsigned={b pu}"
     | _, _, _, _ => "bad-op"
   | ["lit", sg, bs, up, dh, sh] =>
     match signOf sg, baseOf bs, fromHex dh, fromHex sh with
